@@ -21,6 +21,7 @@ layout keys (all optional except bits/events):
   extra     ordered list of (keyword, value) added to the primary TEXT
   stext     list of (k, v) for a supplemental TEXT segment, or None
   stext_pos 'after' (default: after DATA) | 'before'
+  stext_raw  the supplemental segment as a raw string (overrides stext; may be ill-formed)
   analysis  list of (k, v) or None; analysis_pos 'after'; analysis_offsets 'header' | 'text'
   tot, par  overrides of the declared $TOT / $PAR (for corruption)
 """
@@ -110,6 +111,8 @@ def build(layout):
     analysis = layout.get('analysis')
     sbytes = (textref.encode(stext, d, leading=layout.get('stext_leading', True))
               .encode('latin-1') if stext else b'')
+    if layout.get('stext_raw') is not None:          # the bytes of the supplemental segment as given (possibly ill-formed)
+        sbytes = layout['stext_raw'].encode('latin-1')
     abytes = (textref.encode(analysis, d, leading=layout.get('analysis_leading', True))
               .encode('latin-1') if analysis else b'')
 
